@@ -110,6 +110,9 @@ func verifyProof(persistTrie *PersistTrie, block uint64, ind *int) (Node, []byte
 		return nil, nil, errors.New("index out of bounds")
 	}
 
+	if persistTrie.Pairs[*ind] == nil {
+		return nil, nil, errors.New("invalid node")
+	}
 	node, err := DeserializeNode(persistTrie.Pairs[*ind].Value)
 	if err != nil {
 		return nil, nil, err
